@@ -18,8 +18,9 @@ unsigned case_timeout_s() { return 1800; }
 // both) into a union of lg_k; the order alternates with the trial (finer input first / last).
 // cpc_union_hires: union results (ICON estimate and bounds) at small lg_k with thousands of trials, additionally checked with
 // the high-resolution interval-coverage clause (kappa-scaled tolerance, vf/c06_common.hpp) (the ICON interval is widest, and most asymmetric, at lg_k 4..7).
-enum Fam { F_CPC, F_CPC_UNION, F_CPC_UNION_MIXED, F_CPC_UNION_HIRES, F_N };
-static const char* FAM_NAME[] = {"cpc", "cpc_union", "cpc_union_mixed", "cpc_union_hires"};
+// cpc_hip_hires: directly fed sketches (HIP estimate and bounds) at lg_k 4..6 under the same high-resolution clause.
+enum Fam { F_CPC, F_CPC_UNION, F_CPC_UNION_MIXED, F_CPC_UNION_HIRES, F_CPC_HIP_HIRES, F_N };
+static const char* FAM_NAME[] = {"cpc", "cpc_union", "cpc_union_mixed", "cpc_union_hires", "cpc_hip_hires"};
 typedef std::allocator<uint8_t> AL;
 
 static std::vector<Cell> build_cells(bool thorough) {
@@ -36,6 +37,12 @@ static std::vector<Cell> build_cells(bool thorough) {
     for (int mi : {7, 10}) {    // 8k and 64k
       Cell x; x.fam = F_CPC_UNION_HIRES; x.lg_k = lg; x.mi = mi; x.trials = thorough ? 16000 : (lg <= 5 ? 10000 : 4000); x.n = cardinality(lg, mi);
       x.cost = static_cast<double>(x.n) * x.trials * 1.4 + 5000.0 * x.trials;
+      cells.push_back(x);
+    }
+  for (uint8_t lg = 4; lg <= 6; ++lg)
+    for (int mi : {7, 10}) {    // 8k and 64k
+      Cell x; x.fam = F_CPC_HIP_HIRES; x.lg_k = lg; x.mi = mi; x.trials = thorough ? 40000 : (lg <= 5 ? 20000 : 6000); x.n = cardinality(lg, mi);
+      x.cost = static_cast<double>(x.n) * x.trials + 3000.0 * x.trials;
       cells.push_back(x);
     }
   for (int f = 0; f < F_CPC_UNION_HIRES; ++f)
@@ -85,13 +92,14 @@ void run_case(uint64_t idx, Rng& r) {
     const uint64_t kb = base + (static_cast<uint64_t>(t) << 32);
     const std::string ctx = "trial=" + std::to_string(t);
     auto key = [&](uint64_t i) { return bij(kb + i); };
-    if (cell.fam == F_CPC) {
+    if (cell.fam == F_CPC || cell.fam == F_CPC_HIP_HIRES) {
       cpc_sketch s(cell.lg_k);
       for (uint64_t i = 0; i < n; ++i) s.update(key(i));
       Trial x; x.c = read_chain(s); check_chain(x.c, fam, ctx); x.exact_class = small;
       VF_CHECK(x.c.est == s.get_hip_estimate(), "cpc|unmerged-sketch-estimate-is-not-hip", ctx);
       if (small) check_window(x.c.est, n, cell.lg_k, "cpc|small-range|hip-estimate-outside-accuracy-window", ctx);
       tr.push_back(x);
+      if (cell.fam == F_CPC_HIP_HIRES) continue;
       Trial y; y.c.est = s.get_icon_estimate();
       for (int kappa = 1; kappa <= 3; ++kappa) { y.c.lb[kappa] = get_icon_confidence_lb<AL>(s, kappa); y.c.ub[kappa] = get_icon_confidence_ub<AL>(s, kappa); }
       check_chain(y.c, "cpc_icon", ctx);
@@ -115,8 +123,8 @@ void run_case(uint64_t idx, Rng& r) {
   }
   const std::string ctx = "family=" + fam + " lg_k=" + std::to_string(cell.lg_k) + " n=" + std::to_string(n);
   // small-range cells: the error is a rare collision event; the per-trial window replaces bias/spread
-  const CellResult R = check_cell(tr, n, published_rse(cell.fam >= F_CPC_UNION, cell.lg_k), fam, ctx, !small, true);
-  if (cell.fam == F_CPC_UNION_HIRES) {
+  const CellResult R = check_cell(tr, n, published_rse(cell.fam >= F_CPC_UNION && cell.fam != F_CPC_HIP_HIRES, cell.lg_k), fam, ctx, !small, true);
+  if (cell.fam == F_CPC_UNION_HIRES || cell.fam == F_CPC_HIP_HIRES) {
     const std::string rec = check_interval_miss(tr, n, fam, ctx); count("mc_hires_cells");
     sample("{\"hires_cell\":" + jstr(rec) + "}");
   }
